@@ -7,6 +7,7 @@ LEVEL = ("bounded symbolic execution of the repository's own functions on z3 pro
          "explored path: within the stated instantiation family and integer ranges the solver's verdict covers every value of "
          "the symbolic inputs; counterexamples are replayed on the unpatched code before being reported. %s")
 CHECKS = {
+ "C08": ("§3 C08", "symbolic: thresholds, signs, every leaf box (fixed-or-not is a fork), assumption presence/constants, leaf values; instantiated: skeletons, compound-bounds patterns", "M4, M5 structural, M6, M10"),
  "C07": ("§3 C07", "symbolic: thresholds, signs, boxes, assumption presence flags and values (constants, sub-ranges, compound constants), remaining leaf values; instantiated: skeletons, assumed-id subsets, value forms", "M4, M5 structural, M6, M10"),
  "C06": ("§3 C06", "symbolic: thresholds, signs, leaf boxes, per-leaf presence flag, interval and completion, child valuations for the flags; instantiated: skeletons, presence patterns, value forms", "M4, M5 structural, M6, M10"),
  "C04": ("§3 C04", "symbolic: every 0/1 leaf assignment, AtLeast/AtMost k on named nodes; instantiated: formulas (curated, seeded, exhaustive 2-level), construction route (constructors, from_json, from_cicJE)", "M4, M5 structural, M6; inherits the open known finding negate-mixed (class excluded, witness replayed)"),
